@@ -199,12 +199,13 @@ def _poly_operand(expr):
 # ---- end to end: real sampler -> real normal ---------------------------------------------------
 
 
-def sampled_case(expr, method, n, k, orient=None, side=None, link_only=False, dep=None, called=False, after_other=False, **kw):
+def sampled_case(expr, method, n, k, orient=None, side=None, link_only=False, dep=None, called=False, after_other=False,
+                 joint=False, **kw):
     """after_other: another object of the same kind (other symbolic parameters) and this one were sampled in the same way
     just before"""
     name = expr_name(expr) + ("[t]" if dep else "")
     tag = name + ("/" + orient if orient else "") + ("/" + side if side else "") + ("/called" if called else "") + (
-        "/after_other_object" if after_other else "")
+        "/after_other_object" if after_other else "") + ("/joint_points_parameters_first" if joint else "")
     cname = "%s/%s/%s/n%d/k%d" % ("sampled" if link_only else "normal", tag, method, n, k)
 
     def body(env):
@@ -224,7 +225,12 @@ def sampled_case(expr, method, n, k, orient=None, side=None, link_only=False, de
             (ob.sample_random_uniform if method == "random" else ob.sample_grid)(n=n)
             f(n=n, params=P)
         pts = f(n=n, params=P)
-        nrm = None if link_only else bd.normal(pts, P)
+        if joint and k:
+            # normal() asked with ONE Points object that carries the parameters in FRONT of the coordinates
+            Prep = Points(P.as_tensor.repeat_interleave(n, dim=0), P.space)
+            nrm = bd.normal(Points.joined(Prep, pts))
+        else:
+            nrm = None if link_only else bd.normal(pts, P)
         names, dims = list(pts.space.keys()), [pts.space[v] for v in pts.space]
         return dict(pts=pts, nrm=nrm, names=names, dims=dims, sh=sh, rows=rows, npts=len(pts))
 
@@ -552,6 +558,8 @@ def cases(tier):
         cs.append(sampled_case(C, "grid", n, 0))
     cs.append(optional_parameter_case("Circle"))
     cs.append(sampled_case(S, "grid", 2, 0, after_other=True))
+    for e in (C, S, I):
+        cs.append(sampled_case(e, "random", 1, 2, dep="t", joint=True))
     cs.append(sampled_case(C, "grid", 3, 0, after_other=True))
     if not quick:
         cs.append(optional_parameter_case("Sphere"))
